@@ -66,6 +66,8 @@ struct RunCfg
   bool quadratic_prior = false;
   bool kappa = false; // spatially varying penalty weights (kappa image) for the quadratic prior
   bool rdp = false;   // OSMAPOSL only: relative difference prior instead of the quadratic one
+  int filter = 0;     // OSMAPOSL only: 0 none, 1 inter-iteration filter, 2 inter-update filter (Gaussian: keeps images non-negative)
+  int filter_interval = 1;
   double beta = 0.;
   bool map_multiplicative = false; // OSMAPOSL MAP model
   bool reuse_denominator = false;
@@ -90,6 +92,22 @@ make_recon(const Problem& pr, const shared_ptr<rc::objective_type>& obj, const R
 #else
   r->set_enforce_initial_positivity(rcg.enforce_pos);
   r->set_MAP_model(rcg.map_multiplicative ? "multiplicative" : "additive");
+  if (rcg.filter)
+    {
+      shared_ptr<SeparableGaussianImageFilter<float>> f(new SeparableGaussianImageFilter<float>);
+      f->set_fwhms(make_coordinate(3.F, 6.F, 6.F));
+      shared_ptr<DataProcessor<target_type>> dp(f);
+      if (rcg.filter == 1)
+        {
+          r->set_inter_iteration_filter_ptr(dp);
+          r->set_inter_iteration_filter_interval(rcg.filter_interval);
+        }
+      else
+        {
+          r->set_inter_update_filter_ptr(dp);
+          r->set_inter_update_filter_interval(rcg.filter_interval);
+        }
+    }
 #endif
   return r;
 }
@@ -274,6 +292,8 @@ gen_runcfg(Plan& p, sim::Rng& r)
   p.cfg["kappa"] = r.chance(0.4);
 #ifndef RECON_OSSPS
   p.cfg["rdp"] = r.chance(0.4);
+  p.cfg["filter"] = r.chance(0.7) ? 0 : r.range(1, 2);
+  p.cfg["filter_interval"] = r.range(1, 3);
 #endif
 #ifdef RECON_OSSPS
   p.cfg["alpha10"] = r.range(5, 15);
@@ -294,6 +314,8 @@ base_runcfg(const Plan& p, const Problem& pr)
   c.quadratic_prior = p.c("prior", 0) != 0;
   c.kappa = c.quadratic_prior && p.c("kappa", 0) != 0;
   c.rdp = c.quadratic_prior && p.c("rdp", 0) != 0;
+  c.filter = (int)p.c("filter", 0);
+  c.filter_interval = (int)std::max<long>(1, p.c("filter_interval", 1));
   c.beta = p.c("beta10", 5) / 10.;
   c.map_multiplicative = p.c("map_mult", 0) != 0;
 #ifdef RECON_OSSPS
@@ -501,7 +523,8 @@ run(const Plan& p, sim::Result& res)
               }
             int v = 0;
             for (auto it2 = img->begin_all(); it2 != img->end_all(); ++it2, ++v)
-              if ((stot[(size_t)v] > 0 || rcg.quadratic_prior /* a prior couples them to their neighbours */) && !(*it2 > 0.f))
+              if ((stot[(size_t)v] > 0 || rcg.quadratic_prior || rcg.filter /* a prior or a filter couples them to their neighbours */)
+                  && !(*it2 > 0.f))
                 strictly_positive = false;
           }
           sim::probe(strictly_positive ? "resume_default_saved_iterate_strictly_positive" : "resume_default_positivity_rewrites_zeros");
